@@ -39,7 +39,7 @@ OPS = ["A", "A-again", "A-otherfit", "B-enum", "C-file", "D-same-basename"]
 
 
 def bounds(tier):
-    return {"history length": 2 if tier == "quick" else 3, "operations": OPS,
+    return {"history length": 2 if tier == "quick" else 4, "operations": OPS,
             "fault points": "every write call of the second save", "N": 3}
 
 
@@ -48,7 +48,7 @@ def tasks(tier):
           {"name": "roundtrip:no-preprocessing", "fn": "t_roundtrip", "args": {"variant": "empty-steps"}},
           {"name": "roundtrip:range-from-numpy-scalars", "fn": "t_roundtrip", "args": {"variant": "numpy-range"}},
           {"name": "roundtrip:options", "fn": "t_roundtrip", "args": {"variant": "options"}}]
-    k = 2 if tier == "quick" else 3
+    k = 2 if tier == "quick" else 4
     for hist in itertools.product(range(len(OPS)), repeat=k):
         ts.append({"name": "hist:" + ">".join(OPS[i] for i in hist), "fn": "t_history", "args": {"hist": list(hist)}})
     for f in range(0, 40):
